@@ -32,7 +32,8 @@ def fs_view(env):
 REMOTE_FAMILIES = {
     'small': (0x1001, 0x1002, 0x1003, 0x1004, 0x1005, 0x1006),
     'extreme': (0xFFFFFFFF, 0x80000000, 0xFFFFFFFE, 0x7FFFFFFF, 0x80000001, 0xFFFFFFFD),
-    'same': (0x5A5A5A5A,),          # the device may reuse its id for consecutive streams
+    'same': (0x5A5A5A5A,),
+    'mirror': (2, 1, 4, 3, 6, 5, 8, 7),   # the device's ids mirror the host's: stream (local 1, remote 2) next to (local 2, remote 1)          # the device may reuse its id for consecutive streams
 }
 OPS8 = ('shell', 'exec_out', 'streaming_shell', 'root', 'list', 'stat', 'pull', 'push')
 SHELL_OUT = b'l1\xc3\xa9\nl2\x00\xff'
